@@ -454,6 +454,21 @@ pub fn execute(prog: Program) -> Outcome {
                             }
                         }
                     }
+                    // every database keeps an identifier of its own
+                    {
+                        let mut ids: BTreeMap<usize, String> = BTreeMap::new();
+                        for name in db_names(&dbs) {
+                            if let Some((id, _)) = db_meta(&dbs, &name) {
+                                if let Some(other) = ids.insert(id, name.clone()) {
+                                    out.violations.push(Violation::new(
+                                        "duplicate-db-id",
+                                        "after-restart".to_string(),
+                                        format!("op #{}: after the restart databases {} and {} both have the identifier {}", i, other, name, id),
+                                    ));
+                                }
+                            }
+                        }
+                    }
                     // histories restart from the persisted state
                     for ((d2, _k), h) in hist.iter_mut() {
                         if *d2 == db {
